@@ -4,7 +4,8 @@ CONSTANTS
   Scripted = FALSE
   ExcuseKF = FALSE
   Dump = FALSE
-INIT Init
+INIT KFInit
 NEXT Next
-INVARIANT Inv_NoKnownFinding
+CONSTRAINT CollectKF
+POSTCONDITION PrintKF
 CHECK_DEADLOCK FALSE
